@@ -228,3 +228,47 @@ package queue
 //@ func (*FixedQueue).Add
 //@   trusted
 //@   note body not verified
+
+// ---- what an emitted message means ----------------------------------------------------
+// ValueOf / TypedValueOf read the current value of the message's arm, unchanged.
+// (a set oneof arm holds its message: what decoding a configuration guarantees; a hand-built wrapper around a nil message is excluded)
+//@ pred ArmSet(v *fpb.Value) := v != nil && (v.Value != nil ==> payload(v.Value) != nil)
+//@   && (isa(v.Value.(*fpb.Value_IntValue)) ==> v.Value.(*fpb.Value_IntValue).IntValue != nil)
+//@   && (isa(v.Value.(*fpb.Value_UintValue)) ==> v.Value.(*fpb.Value_UintValue).UintValue != nil)
+//@   && (isa(v.Value.(*fpb.Value_DoubleValue)) ==> v.Value.(*fpb.Value_DoubleValue).DoubleValue != nil)
+//@   && (isa(v.Value.(*fpb.Value_StringValue)) ==> v.Value.(*fpb.Value_StringValue).StringValue != nil)
+//@   && (isa(v.Value.(*fpb.Value_StringListValue)) ==> v.Value.(*fpb.Value_StringListValue).StringListValue != nil)
+//@   && (isa(v.Value.(*fpb.Value_BoolValue)) ==> v.Value.(*fpb.Value_BoolValue).BoolValue != nil)
+//@ func ValueOf
+//@   props C20 C12
+//@   requires ArmSet(v)
+//@   ensures [sync-flag-as-configured C20] isa(v.Value.(*fpb.Value_Sync)) ==> isa(res0.(uint64)) && res0.(uint64) == v.Value.(*fpb.Value_Sync).Sync
+//@   ensures [int-value-as-generated C20] isa(v.Value.(*fpb.Value_IntValue)) ==> isa(res0.(int64)) && res0.(int64) == v.Value.(*fpb.Value_IntValue).IntValue.Value
+//@   ensures [uint-value-as-generated C20] isa(v.Value.(*fpb.Value_UintValue)) ==> isa(res0.(uint64)) && res0.(uint64) == v.Value.(*fpb.Value_UintValue).UintValue.Value
+//@   ensures [bool-value-as-generated C20] isa(v.Value.(*fpb.Value_BoolValue)) ==> isa(res0.(bool)) && res0.(bool) == v.Value.(*fpb.Value_BoolValue).BoolValue.Value
+//@   ensures [string-value-as-generated C20] isa(v.Value.(*fpb.Value_StringValue)) ==> isa(res0.(string)) && res0.(string) == v.Value.(*fpb.Value_StringValue).StringValue.Value
+//@   ensures [no-arm-no-value C20] v.Value == nil ==> res0 == nil
+//@ func TypedValueOf
+//@   props C20 C12
+//@   requires ArmSet(v)
+//@   invariant 0: leaflist != nil && fresh(leaflist) && len(leaflist.Element) == $i && 0 <= $i && $i <= len($range) && tv != nil && fresh(tv) && (arr(leaflist.Element) == 0 || fresh(leaflist.Element))
+//@     && (forall j int :: 0 <= j && j < $i ==> leaflist.Element[j] != nil && allocated(leaflist.Element[j]) && isa(leaflist.Element[j].Value.(*gpb.TypedValue_StringVal)) && allocated(leaflist.Element[j].Value.(*gpb.TypedValue_StringVal)) && leaflist.Element[j].Value.(*gpb.TypedValue_StringVal).StringVal == $range[j])
+//@   ensures [markers-carry-no-value C20] isa(v.Value.(*fpb.Value_Sync)) || isa(v.Value.(*fpb.Value_Delete)) || v.Value == nil ==> res0 == nil
+//@   ensures [int-value-as-generated C20] isa(v.Value.(*fpb.Value_IntValue)) ==> res0 != nil && isa(res0.Value.(*gpb.TypedValue_IntVal)) && res0.Value.(*gpb.TypedValue_IntVal).IntVal == v.Value.(*fpb.Value_IntValue).IntValue.Value
+//@   ensures [uint-value-as-generated C20] isa(v.Value.(*fpb.Value_UintValue)) ==> res0 != nil && isa(res0.Value.(*gpb.TypedValue_UintVal)) && res0.Value.(*gpb.TypedValue_UintVal).UintVal == v.Value.(*fpb.Value_UintValue).UintValue.Value
+//@   ensures [bool-value-as-generated C20] isa(v.Value.(*fpb.Value_BoolValue)) ==> res0 != nil && isa(res0.Value.(*gpb.TypedValue_BoolVal)) && res0.Value.(*gpb.TypedValue_BoolVal).BoolVal == v.Value.(*fpb.Value_BoolValue).BoolValue.Value
+//@   ensures [string-value-as-generated C20] isa(v.Value.(*fpb.Value_StringValue)) ==> res0 != nil && isa(res0.Value.(*gpb.TypedValue_StringVal)) && res0.Value.(*gpb.TypedValue_StringVal).StringVal == v.Value.(*fpb.Value_StringValue).StringValue.Value
+//@   ensures [string-list-keeps-every-element-in-order C20] isa(v.Value.(*fpb.Value_StringListValue)) ==> res0 != nil && isa(res0.Value.(*gpb.TypedValue_LeaflistVal)) && res0.Value.(*gpb.TypedValue_LeaflistVal).LeaflistVal != nil
+//@     && len(res0.Value.(*gpb.TypedValue_LeaflistVal).LeaflistVal.Element) == len(v.Value.(*fpb.Value_StringListValue).StringListValue.Value)
+
+// Any queue (the generator queue above, or the fixed replay queue): an exhausted queue yields nil, nil; what it yields is
+// a generator message with its timestamp, or a prepared response.
+// qNexts: events taken from a queue (ghost).
+//@ ghost qNexts int
+//@ func iface Queue.Next
+//@   effect qNexts := qNexts + 1
+//@   modifies ghost qNexts, ghost draws, ghost lastDraw, heap(UpdateQueue.q), heap(UpdateQueue.latest), heap(UpdateQueue.duration), heap(value.v), heap(fpb.Value.Timestamp), heap([][]*value), heap([]*value), heap(fpb.Value.Repeat), heap(fpb.Timestamp.Timestamp), heap(fpb.IntValue.Value), heap(fpb.UintValue.Value), heap(fpb.DoubleValue.Value),
+//@     heap(fpb.StringValue.Value), heap(fpb.BoolValue.Value), heap(fpb.StringListValue.Value), heap(fpb.IntList.Options), heap(fpb.UintList.Options), heap(fpb.DoubleList.Options), heap(fpb.StringList.Options), heap(fpb.BoolList.Options),
+//@     heap([]int64), heap([]uint64), heap([]float64), heap([]string), heap([]bool), heap(FixedQueue.resp)
+//@   ensures res1 == nil && res0 != nil ==> (isa(res0.(*fpb.Value)) && ArmSet(res0.(*fpb.Value)) && res0.(*fpb.Value).Timestamp != nil) || (isa(res0.(*gpb.SubscribeResponse)) && res0.(*gpb.SubscribeResponse) != nil)
+//@   note what UpdateQueue.Next (verified above) and FixedQueue.Next return; assumed for the interface call
